@@ -444,7 +444,7 @@ def run_check(spec, tier, replay=None):
             unknown.append((i, code))
     # disagreements where only the correspondence is broken (implementation still within the
     # specification's tolerance): reported without a failing input
-    tie_codes = spec.get("tie_codes", (3,))
+    tie_codes = spec.get("tie_codes", ())
     tie_only = [(i, code) for i, code in unknown if code in tie_codes]
     unknown = [(i, code) for i, code in unknown if code not in tie_codes]
     if tie_only and not unknown:
